@@ -15,6 +15,9 @@ protected:
 };
 
 inline void worker( int) {}
+// thread functions that return a value (std::thread ignores it): their instantiations of the constructor's lambda
+// are analysed too - a set/clear bracket that depends on the return type must hold for them as well
+inline int valued_worker( int v) { return v; }
 
 void drive()
 {
@@ -23,6 +26,8 @@ void drive()
    Single::reset();
    celma::common::ManagedThread  t1( [] () {});
    celma::common::ManagedThread  t2( worker, 42);
+   celma::common::ManagedThread  t3( valued_worker, 42);
+   celma::common::ManagedThread  t4( [] () -> bool { return true; });
    (void) t1.isActive();
 }
 
